@@ -285,6 +285,9 @@ func runC20(c *Check, a *Analysis) {
 	p := c.P
 	ruleLockBalance(c, a, "R-LOCK-BALANCE", "Conn.mutex", "Transport.connsMu", "Client.lock", "Server.mut", "Server.mutex", "persistConn.mu", "stream.mut")
 	ruleNoCloseUnderLock(c, a, "R-NO-CLOSE-UNDER-LOCK")
+	c.Rule("R-LOCK", "Server.codecs under Server.mutex; Server.listeners under Server.mut; Conn.closing under Conn.mutex", 5)
+	ruleLock(c, a, "R-LOCK", "Server", "codecs", "listeners")
+	ruleLock(c, a, "R-LOCK", "Conn", "closing")
 	ls := a.Locks()
 	sc := siteCounter{}
 	c.Rule("R-SCHED-PAIR", "every scheduler.New is paired with a Close: local queues on every path from creation to the return of the owning function; queues stored in Conn fields by the reader's exit; queues stored in the poll context by the EOF branch", 8)
